@@ -1,4 +1,4 @@
-import FpgoVerif.Proofs.C16Live
+import FpgoVerif.Proofs.C16Sort
 import FpgoVerif.Gen.Skeletons
 /-! Property theorems for C16 — PMap is Map run in parallel: same results, each element once, bounded
     concurrency, terminates.  All statements quantify over every input list, every function, every worker count,
@@ -173,6 +173,28 @@ example : Reach [10, 20] (· + 1) 0 (init 1)
 theorem C16_expected_obs (c : Case) :
     expectedObs c = obsLine c (inputList c) (if c.hold then toString (specWorkers c.pool c.n) else "ok") := by
   unfold expectedObs; rw [C16_workers]
+
+/-- The list the driver prints is what EVERY terminal state of the goroutine system yields, for every case line (int
+    elements; the string cases use the same numbers with a fixed-width rendering): in ordered mode the assembled output
+    itself, in RandomOrder mode its sorted form — and sorted forms coincide exactly for permutations
+    (`mergeSort_eq_of_perm`), so comparing sorted outputs decides "is a permutation of Map(f, list)". -/
+theorem C16_driver_observable (c : Case) (s : St Nat Nat)
+    (hr : Reach (inputList c) fInt (workerCount c.pool c.n / 3) (init (workerCount c.pool c.n)) s)
+    (hd : s.collectorDone = true) :
+    (if c.random then (s.collected.map (·.2)).mergeSort leNat else orderedResult 0 c.n s.collected)
+      = (canon c (inputList c)).map fInt := by
+  have hlen : (inputList c).length = c.n := by simp [inputList]
+  have hw : inputList c ≠ [] → 0 < workerCount c.pool c.n := fun hl =>
+    (C16_workers_bounds c.pool c.n).2 (by rw [← hlen]; exact List.length_pos_iff.mpr hl)
+  unfold canon
+  cases hrand : c.random with
+  | false =>
+    simp only [Bool.false_eq_true, if_false]
+    rw [← hlen]; exact C16_result_ordered _ _ _ _ hw 0 s hr hd
+  | true =>
+    simp only [if_true]
+    have hp := (C16_result_random _ _ _ _ hw 0 s hr hd).2
+    rw [mergeSort_eq_of_perm hp, mergeSort_map_mono fInt (by intro a b h; unfold fInt; omega)]
 
 /-! ### Tie to the source: protocol skeletons regenerated from fp.go on every run -/
 
